@@ -11,6 +11,12 @@ from .common import ProbeUnavailable
 def _res(cluster):
     try:
         return cluster._clusters['default']['resources']
+    except (AttributeError, KeyError, TypeError):
+        pass
+    try:
+        r = cluster._resources            # the same dictionary under its older name
+        r['available'], r['ingest'], r['occupied'], r['idle']
+        return r
     except (AttributeError, KeyError, TypeError) as e:
         raise ProbeUnavailable("cluster resources: %r" % (e,))
 
@@ -39,6 +45,10 @@ def pools_key(p):
 def running_tasks(cluster):
     try:
         return list(cluster._clusters['default']['tasks']['running'])
+    except (AttributeError, KeyError, TypeError):
+        pass
+    try:
+        return list(cluster._tasks['running'])
     except (AttributeError, KeyError, TypeError) as e:
         raise ProbeUnavailable("running tasks: %r" % (e,))
 
